@@ -330,7 +330,7 @@ func (r *Report) finish(out string, start time.Time, verbose bool) {
 			smt = r.p.buildQuery(o, 2)
 		}
 		suffix := " no-failing-input-found"
-		if replays < 12 && time.Since(replayStart) < 90*time.Second {
+		if replays < 12 && time.Since(replayStart) < 90*time.Second && os.Getenv("GOVC_NOREPLAY") == "" {
 			rr := r.p.replayObligation(o, r.p.repo, r.Verif)
 			if rr.Attempted {
 				replays++
